@@ -471,6 +471,116 @@ theorem product_eqv {p q : Dec} {n : Nat} (hp : p.neg = false) (hq : q.neg = fal
   rw [hq', hP]
   simp [Nat.mul_mod_left, Nat.mul_div_cancel _ (pow10_pos _), Nat.mul_div_cancel_left _ (pow10_pos _)]
 
+/-! ### progress: a whole product that fits is computed -/
+
+theorem exists_least (Q : Nat → Prop) [DecidablePred Q] : ∀ (n k hi : Nat), hi - k = n → k ≤ hi → Q hi →
+    ∃ j, k ≤ j ∧ j ≤ hi ∧ Q j ∧ ∀ i, k ≤ i → i < j → ¬ Q i := by
+  intro n
+  induction n with
+  | zero =>
+    intro k hi hd hk hq
+    have : k = hi := by omega
+    subst this
+    exact ⟨k, Nat.le_refl _, Nat.le_refl _, hq, fun i h1 h2 => by omega⟩
+  | succ m ih =>
+    intro k hi hd hk hq
+    by_cases hqk : Q k
+    · exact ⟨k, Nat.le_refl _, hk, hqk, fun i h1 h2 => by omega⟩
+    · obtain ⟨j, h1, h2, h3, h4⟩ := ih (k + 1) hi (by omega) (by omega) hq
+      refine ⟨j, by omega, h2, h3, ?_⟩
+      intro i hi1 hi2
+      by_cases hik : i = k
+      · subst hik; exact hqk
+      · exact h4 i (by omega) hi2
+
+/-- if `price × n` is whole and fits in 96 bits, `total` succeeds and yields exactly it -/
+theorem total_of_whole {p : Dec} {n : Nat} (hs : p.scale ≤ 28) (hneg : p.neg = false) (hn : n < LIM)
+    (hw : wholeProduct p n = true) (hfit : product p n < LIM) :
+    ∃ t, total p n = .ok t ∧ t.hasFract = false ∧ t.toU128 = some (product p n) := by
+  unfold wholeProduct at hw
+  simp only [beq_iff_eq] at hw
+  obtain ⟨V, hV⟩ := Nat.dvd_of_mod_eq_zero hw
+  have hprod : product p n = V := by
+    unfold product; rw [hV, Nat.mul_div_cancel_left _ (pow10_pos _)]
+  rw [hprod] at hfit ⊢
+  unfold total fromU128
+  simp only [hn, if_true, Res.ok_bind]
+  by_cases h0 : p.mant = 0 ∨ (ofNat n).mant = 0
+  · have hV0 : V = 0 := by
+      have : p.mant * n = 0 := by
+        rcases h0 with h0 | h0
+        · simp [h0]
+        · simp [ofNat] at h0; simp [h0]
+      rw [this] at hV
+      rcases Nat.mul_eq_zero.mp hV.symm with h | h
+      · exact absurd h (Nat.ne_of_gt (pow10_pos _))
+      · exact h
+    refine ⟨⟨false, 0, 0⟩, ?_, by simp [hasFract], by simp [toU128, hV0]⟩
+    unfold mul; simp [h0, orErr]
+  · have hk0 : p.scale + (ofNat n).scale - 28 = 0 := by simp [ofNat]; omega
+    have hsc : p.scale + (ofNat n).scale = p.scale := by simp [ofNat]
+    have hPm : p.mant * (ofNat n).mant = p.mant * n := by simp [ofNat]
+    have hfits : rhe (p.mant * n) (10 ^ p.scale) < LIM := by
+      rw [rhe_exact (pow10_pos _) ⟨V, hV⟩, hV, Nat.mul_div_cancel_left _ (pow10_pos _)]; exact hfit
+    obtain ⟨j, _, hjs, hqj, hmin⟩ :=
+      exists_least (fun j => rhe (p.mant * n) (10 ^ j) < LIM) p.scale 0 p.scale (by omega) (by omega) hfits
+    have hloop := mulLoop_find (P := p.mant * n) (s := p.scale) (p.scale + 2) 0 j (by omega) hjs (by omega) hqj hmin
+    have hdj : 10 ^ j ∣ p.mant * n := Nat.dvd_trans (Nat.pow_dvd_pow 10 hjs) ⟨V, hV⟩
+    have hval : rhe (p.mant * n) (10 ^ j) = V * 10 ^ (p.scale - j) := by
+      rw [rhe_exact (pow10_pos _) hdj, hV]
+      have : 10 ^ p.scale = 10 ^ j * 10 ^ (p.scale - j) := by rw [← Nat.pow_add]; congr 1; omega
+      rw [this, Nat.mul_assoc, Nat.mul_div_cancel_left _ (pow10_pos _)]; exact Nat.mul_comm _ _
+    refine ⟨⟨p.neg != (ofNat n).neg, rhe (p.mant * n) (10 ^ j), p.scale - j⟩, ?_, ?_, ?_⟩
+    · unfold mul
+      simp only [h0, if_false, hPm, hk0]
+      rw [hsc, hloop]
+      simp [orErr]
+    · simp [hasFract, hval, Nat.mul_mod_left]
+    · simp [toU128, hneg, ofNat, hval, Nat.mul_div_cancel _ (pow10_pos _)]
+
+/-! ### results stay below 2^96 -/
+
+theorem mul_mant_lt {a b t : Dec} (ht : mul a b = some t) : t.mant < LIM := by
+  unfold mul at ht
+  by_cases h0 : a.mant = 0 ∨ b.mant = 0
+  · simp only [h0, if_true, Option.some.injEq] at ht; subst ht; decide
+  · simp only [h0, if_false] at ht
+    cases hl : mulLoop (a.mant * b.mant) (a.scale + b.scale) (a.scale + b.scale + 2)
+        (a.scale + b.scale - 28) with
+    | none => simp [hl] at ht
+    | some r =>
+      obtain ⟨m, sc⟩ := r
+      simp only [hl, Option.some.injEq] at ht
+      subst ht
+      obtain ⟨_, _, _, _, _, hlt, _⟩ := mulLoop_some _ _ hl
+      exact hlt
+
+theorem rha0_lt {p : Dec} (h : p.mant < LIM) : (rha0 p).mant < LIM := by
+  unfold rha0
+  simp only
+  have hX : 0 < 10 ^ p.scale := pow10_pos _
+  apply (Nat.div_lt_iff_lt_mul (by omega)).mpr
+  have h1 : 2 * p.mant ≤ 2 * p.mant * 10 ^ p.scale := Nat.le_mul_of_pos_right _ hX
+  have h2 : 2 * (p.mant + 1) * 10 ^ p.scale ≤ 2 * LIM * 10 ^ p.scale :=
+    Nat.mul_le_mul_right _ (Nat.mul_le_mul_left _ (by omega))
+  have h3 : 2 * (p.mant + 1) * 10 ^ p.scale = 2 * p.mant * 10 ^ p.scale + 2 * 10 ^ p.scale := by
+    rw [Nat.mul_add, Nat.add_mul]
+  have h4 : LIM * (2 * 10 ^ p.scale) = 2 * LIM * 10 ^ p.scale := by ac_rfl
+  omega
+
+theorem rateFee_lt {r g : Dec} {n : Nat} (h : rateFee r g = .ok n) : n < LIM := by
+  unfold rateFee at h
+  simp only [Res.bind_eq_ok, orErr_eq_ok] at h
+  obtain ⟨p, hp, hu⟩ := h
+  have := rha0_lt (mul_mant_lt hp)
+  unfold toU128 at hu
+  split at hu
+  · cases hu
+  · simp only [Option.some.injEq] at hu
+    subst hu
+    have h1 : (rha0 p).scale = 0 := rfl
+    rw [h1]; simpa using this
+
 /-! ### the pro-rata fee at the two ends -/
 
 /-- nothing left unspent needs no fee -/
@@ -488,5 +598,42 @@ theorem feeFor_zero_val {F Q n : Nat} (h : feeFor F Q 0 = .ok n) : n = 0 := by
     subst hp
     simp [toU128, rha0] at hu
     omega
+
+theorem strip_pow10 : ∀ k, strip (10 ^ k) k = (1, 0)
+  | 0 => rfl
+  | k + 1 => by
+    unfold strip
+    have h1 : 10 ^ (k + 1) % 10 = 0 := by rw [Nat.pow_succ]; exact Nat.mul_mod_left _ _
+    have h2 : 10 ^ (k + 1) ≠ 0 := Nat.ne_of_gt (pow10_pos _)
+    have h3 : 10 ^ (k + 1) / 10 = 10 ^ k := by rw [Nat.pow_succ]; exact Nat.mul_div_cancel _ (by decide)
+    simp only [h1, h2, ne_eq, not_false_eq_true, and_self, if_true, h3]
+    exact strip_pow10 k
+
+theorem ratio_self {Q : Nat} (hQ : 0 < Q) (hQl : Q < LIM) : ratio Q Q = some ⟨false, 1, 0⟩ := by
+  unfold ratio
+  have h1 : ¬ (Q = 0 ∨ Q > Q ∨ Q ≥ LIM) := by omega
+  have h2 : Q ≠ 0 := by omega
+  have hr : rhe (Q * 10 ^ 28) Q = 10 ^ 28 := by
+    rw [rhe_exact hQ (Nat.dvd_mul_right _ _), Nat.mul_div_cancel_left _ hQ]
+  simp only [h2, hr, strip_pow10, false_or]
+  have h3 : ¬ (Q > Q ∨ Q ≥ LIM) := by omega
+  simp only [h3, if_false]
+
+theorem mul_one_nat {F : Nat} (hF : F < LIM) : mul ⟨false, 1, 0⟩ (ofNat F) = some ⟨false, F, 0⟩ := by
+  by_cases hF0 : F = 0
+  · subst hF0; unfold mul; simp [ofNat]
+  · unfold mul
+    simp only [ofNat, Nat.one_mul, Nat.add_zero, Nat.zero_sub]
+    have hne : ¬ ((1 : Nat) = 0 ∨ F = 0) := by omega
+    simp only [hne, if_false]
+    unfold mulLoop
+    simp [rhe_one, hF]
+
+/-- everything still unspent needs the whole fee -/
+theorem feeFor_full {F Q : Nat} (hQ : 0 < Q) (hQl : Q < LIM) (hF : F < LIM) : feeFor F Q Q = .ok F := by
+  unfold feeFor fromU128
+  simp only [ratio_self hQ hQl, orErr, Res.ok_bind, hF, if_true, mul_one_nat hF]
+  have : (2 * F + 10 ^ 0) / (2 * 10 ^ 0) = F := by simp; omega
+  simp [rha0, toU128, this]
 
 end Ats.Dec
